@@ -318,10 +318,7 @@ Proof.
   destruct (parse_expr a) as [[p ka]|]; [|reflexivity].
   destruct (parse_expr b) as [[q kb]|]; [|reflexivity].
   destruct (pat_eqb p q); simpl; [|reflexivity].
-  rewrite negb_false_iff. intro H. apply str_list_eqb_eq in H. subst kb.
-  destruct (ends_catchall p).
-  - apply str_eqb_eq. reflexivity.
-  - apply str_list_eqb_eq. reflexivity.
+  rewrite negb_false_iff. intro H. exact H.
 Qed.
 
 Lemma guard_F5_keys_ok ops : guard_F5 ops = false -> forall o, In o ops -> keys_ok (op_set o) = true.
